@@ -53,7 +53,7 @@ CONTRACTS[(EPATH, 'greedy_decode_ctc')] = Contract(
         'assert forall(lambda n, c: implies(0 <= n and n < NN and 0 <= c and c < CC, scores_probs[n, c, 0] == ite(c == CC - 1, 1000, -1000)))',
     ]},
     # anchored BEFORE the statements that use the values (robust against how `best` is computed: one statement or several)
-    ghost_before={'mask = best[:, :-1] == best[:, 1:]': [
+    ghost_before={'mask = best[': [
         'assert best.shape[0] == NN and best.shape[1] == TT + 1',
         'assert forall(lambda n: implies(0 <= n and n < NN, best[n, 0] == CC))',
         # both arg-max notions (the code's, on the shifted tensor, and the specification's, on the original) bound each other ...
